@@ -360,8 +360,11 @@ func c18Gen(c *Ctx) {
 		for _, v := range vs {
 			sum += v
 		}
-		for maxV := int64(0); maxV <= 10; maxV++ {
+		for maxV := int64(-2); maxV <= 10; maxV++ { // negative limits too: nothing fits, with overflow allowed the least total
 			for a := 0; a < 2; a++ {
+				if maxV < 0 && a == 0 {
+					continue // a negative limit without overflow: the empty selection itself is above the limit (outside the property)
+				}
 				for _, bk := range bks {
 					in := c18SolvCase(maxV, a == 1, bk, int64(i%3), vs, c18Queries(maxV, sum))
 					reps := 1
@@ -375,7 +378,7 @@ func c18Gen(c *Ctx) {
 			}
 		}
 	})
-	c.Note(fmt.Sprintf("FindDpSolvers: all %d value lists of length <= %d over 1..4, maxV 0..10, allowOverOnce both, 4 tie-breakers, 9 Best/BestAllowMinOverflow queries each; runs with overflow or a tie-breaker repeated for fresh map orders", len(vlists), SL))
+	c.Note(fmt.Sprintf("FindDpSolvers: all %d value lists of length <= %d over 1..4, maxV -2..10, allowOverOnce both, 4 tie-breakers, 9 Best/BestAllowMinOverflow queries each; runs with overflow or a tie-breaker repeated for fresh map orders", len(vlists), SL))
 	c.Each(c.N(6000, 150000), func(i int, t *T) {
 		r := t.R
 		n := 2 + r.Intn(9)
